@@ -174,6 +174,104 @@ theorem C13_L_table : ∀ fc ∈ Gen.allFields,
     lenPerElt fc.q = 16 + fc.bytes ∧ fc.bytes = 1 + (fc.bits - 1) / 8 ∧ bitLen fc.q = fc.bits := by
   decide +kernel
 
+/-! ## Part 1b — the `hash.Hash` wrappers `hash_to_field.New(dst)`: call histories
+
+Model `hstep` / `hanswer` / `hrun` (Model/HashToField.lean): Write appends a copy, Sum answers from the absorbed bytes and
+leaves them alone, Reset clears. The theorems say that every answer of every history is a function of the CONCATENATION of
+the bytes written since the last Reset (at the time of each Write) – not of the chunking, not of earlier histories on the
+same object, not of what was handed to Sum before. The Go wrappers are tied to the model by the `h2fhist` op. -/
+
+def HOp.payload : HOp → List UInt8
+  | .write p => p
+  | _ => []
+
+def HOp.isReset : HOp → Bool
+  | .reset => true
+  | _ => false
+
+/-- C13.h1 without a Reset the state is the initial state followed by all written chunks, in order -/
+theorem C13_hist_state (st : List UInt8) (ops : List HOp) (h : ∀ op ∈ ops, op.isReset = false) :
+    ops.foldl hstep st = st ++ ops.flatMap HOp.payload := by
+  induction ops generalizing st with
+  | nil => simp
+  | cons op ops ih =>
+    have hop := h op (by simp)
+    have hrest : ∀ o ∈ ops, o.isReset = false := fun o ho => h o (by simp [ho])
+    rw [List.foldl_cons, ih _ hrest, List.flatMap_cons]
+    cases op <;> simp_all [hstep, HOp.payload, HOp.isReset]
+
+/-- C13.h2 whatever happened before a Reset is forgotten: the state is the concatenation of the chunks written since -/
+theorem C13_hist_state_after_reset (st : List UInt8) (pre ops : List HOp) (h : ∀ op ∈ ops, op.isReset = false) :
+    (pre ++ HOp.reset :: ops).foldl hstep st = ops.flatMap HOp.payload := by
+  rw [List.foldl_append, List.foldl_cons]
+  simpa [hstep] using C13_hist_state [] ops h
+
+/-- C13.h3 the i-th answer of a history is the answer of that call in the state reached by the calls before it -/
+theorem C13_hist_answer (H : List UInt8 → List UInt8) (q nb : Nat) (dst st : List UInt8) (ops : List HOp) (i : Nat)
+    (hi : i < ops.length) :
+    (hrun H q nb dst st ops)[i]? = some (hanswer H q nb dst ((ops.take i).foldl hstep st) ops[i]) := by
+  induction ops generalizing st i with
+  | nil => simp at hi
+  | cons op ops ih =>
+    cases i with
+    | zero => simp [hrun]
+    | succ j =>
+      have hj : j < ops.length := by simpa using hi
+      simp [hrun, ih (hstep st op) j hj]
+
+/-- C13.h4 `Sum(b)` after ANY history on a fresh hasher = `b ‖ digest(bytes written since the last Reset)`; with
+`pre = []`-style histories (no Reset at all) covered by `C13_hist_sum_fresh`. In particular two histories that wrote the
+same byte string since their last Reset (any chunking, any interleaved Sum / Size / BlockSize) have the same digest. -/
+theorem C13_hist_sum (H : List UInt8 → List UInt8) (q nb : Nat) (dst st b : List UInt8) (pre ops : List HOp)
+    (h : ∀ op ∈ ops, op.isReset = false) :
+    hanswer H q nb dst ((pre ++ HOp.reset :: ops).foldl hstep st) (.sum b) =
+      match wrapDigest H q nb dst (ops.flatMap HOp.payload) with
+      | .error e => e.show
+      | .ok d => bytesToHex (b ++ d) := by
+  rw [C13_hist_state_after_reset st pre ops h]; rfl
+
+theorem C13_hist_sum_fresh (H : List UInt8 → List UInt8) (q nb : Nat) (dst b : List UInt8) (ops : List HOp)
+    (h : ∀ op ∈ ops, op.isReset = false) :
+    hanswer H q nb dst (ops.foldl hstep []) (.sum b) =
+      match wrapDigest H q nb dst (ops.flatMap HOp.payload) with
+      | .error e => e.show
+      | .ok d => bytesToHex (b ++ d) := by
+  rw [C13_hist_state [] ops h]; rfl
+
+/-- C13.h5 the digest depends only on the concatenation: histories `pre₁ ++ Reset :: ops₁` and `pre₂ ++ Reset :: ops₂`
+(or fresh ones) whose written chunks concatenate to the same bytes answer every following call identically -/
+theorem C13_hist_concat_only (H : List UInt8 → List UInt8) (q nb : Nat) (dst st₁ st₂ : List UInt8)
+    (pre₁ ops₁ pre₂ ops₂ next : List HOp)
+    (h₁ : ∀ op ∈ ops₁, op.isReset = false) (h₂ : ∀ op ∈ ops₂, op.isReset = false)
+    (hcat : ops₁.flatMap HOp.payload = ops₂.flatMap HOp.payload) :
+    hrun H q nb dst ((pre₁ ++ HOp.reset :: ops₁).foldl hstep st₁) next =
+      hrun H q nb dst ((pre₂ ++ HOp.reset :: ops₂).foldl hstep st₂) next := by
+  rw [C13_hist_state_after_reset st₁ pre₁ ops₁ h₁, C13_hist_state_after_reset st₂ pre₂ ops₂ h₂, hcat]
+
+/-- C13.h6 Sum, Size and BlockSize do not change the state (a second Sum returns the same digest) -/
+theorem C13_hist_sum_idempotent (H : List UInt8 → List UInt8) (q nb : Nat) (dst st b₁ b₂ : List UInt8) :
+    hrun H q nb dst st [.sum b₁, .sum b₂] =
+      [hanswer H q nb dst st (.sum b₁), hanswer H q nb dst st (.sum b₂)] := rfl
+
+/-- C13.h7 the digest is `Bytes` long (so `Sum(b)` returns `|b| + Size()` bytes) and is the big-endian encoding of the
+single reduced element `Hash(msg, dst, 1)[0]` -/
+theorem C13_hist_digest_spec (H : List UInt8 → List UInt8) (q nb : Nat) (hq : 0 < q) (dst msg d : List UInt8)
+    (h : wrapDigest H q nb dst msg = .ok d) :
+    d.length = nb ∧ ∃ x, hashToField H q msg dst 1 = .ok [x] ∧ x < q ∧ d = natToBE nb x := by
+  unfold wrapDigest at h
+  split at h
+  · exact absurd h (by simp)
+  · rename_i xs hxs
+    injection h with h
+    obtain ⟨hlen, hred⟩ := C13_hashToField_count_reduced H q hq msg dst 1 xs hxs
+    match xs, hlen with
+    | [x], _ =>
+      refine ⟨by subst h; simp [natToBE], x, hxs, hred x (by simp), by subst h; rfl⟩
+
+example : hrun Sha256.hash 2130706433 4 [1] [] [.write [1, 2], .write [3], .sum [], .reset, .write [1], .write [2, 3], .sum []]
+    = ["ok:2", "ok:1", (hanswer Sha256.hash 2130706433 4 [1] [1, 2, 3] (.sum [])), "ok", "ok:1", "ok:2",
+       (hanswer Sha256.hash 2130706433 4 [1] [1, 2, 3] (.sum []))] := by decide +kernel
+
 /-! ## Part 2 — the Shallue–van de Woestijne map (`MapToCurve1` of bn254 G1; same template for bn254 G2, grumpkin,
 secp256k1, stark-curve with A = 1) -/
 
